@@ -111,6 +111,7 @@ partial def errToJson : Err → Json
   | .absClass => .arr #["absClass"]
   | .config w => .arr #["config", s2j w]
   | .io w => .arr #["io", s2j w]
+  | .yamlTaggedValue => .arr #["yamlTagged"]
   | .unmodelled w => .arr #["unmodelled", s2j w]
   | .fuel => .arr #["fuel"]
   | .panic p => .arr #["panic", .str (panicName p)]
